@@ -205,6 +205,14 @@ Inductive outcome :=
 | OPassthrough                                             (* Ident without target id -> s-string: the name reaches SQL *)
 | OErr (e : err).
 
+(* Two places where the code is expected to change shape soon (proposed repairs fixes/C10-F2-*.diff, C10-F3-*.diff).  The
+   model is parameterised by what the source says NOW: Gen/GenC10Std.v defines [head_cfg] from semantic/lowering.rs and
+   semantic/resolver/names.rs on every run (vplib/props/c10_std.py, fails closed on any other shape).
+     cfg_that_rejected : lower_expr's ident arm also rejects the bare name `that` (C10-F2 repaired)
+     cfg_parent_walk   : resolve_ident steps from the current module to its PARENT (drops the innermost module name) instead
+                         of dropping the outermost one with pop_front (C10-F3 repaired) *)
+Record cfg := mkCfg { cfg_that_rejected : bool; cfg_parent_walk : bool }.
+
 (* [interp] = the reference is an interpolated item of an s-string (lower_interpolations): the one place where a
    relation variable may be spliced in by name *)
 Definition of_kind (interp : bool) (k : nkind) : outcome :=
@@ -217,23 +225,28 @@ Definition of_kind (interp : bool) (k : nkind) : outcome :=
               else OErr ENotAValue            (* "table variable cannot be used as a scalar value" (a131b2a) *)
   end.
 
-Definition lower_ref_in (interp : bool) (sc : scope) (id : ident) : outcome :=
+Definition lower_that (c : cfg) (sc : scope) : outcome :=
+  (* bare `that`: the joined frame inside a join condition; anywhere else the empty shadow module, which is gone
+     from the root module by the time lower_expr looks the ident up -- neither a module nor relation-typed, so unless
+     lower_expr tests for the name itself the unresolved-ident fallback passes the bare name `that` to SQL (C10-F2) *)
+  match s_that sc with
+  | Some _ => OTuple
+  | None => if cfg_that_rejected c then OErr ENotAValue else OPassthrough
+  end.
+
+Definition lower_ref_in (c : cfg) (interp : bool) (sc : scope) (id : ident) : outcome :=
   match resolve sc id with
   | RBound (CDirect t p) => OColumn t None p
   | RBound (CInput t i p) => OColumn t (Some i) p
   | RBound (CSelf _ _) | RBound (CFrame false) => OTuple
-  | RBound (CFrame true) =>
-      (* bare `that`: the joined frame inside a join condition; anywhere else the empty shadow module, which is gone
-         from the root module by the time lower_expr looks the ident up -- neither a module nor relation-typed, so the
-         unresolved-ident fallback still passes the bare name `that` to SQL (finding C10-F2) *)
-      match s_that sc with Some _ => OTuple | None => OPassthrough end
+  | RBound (CFrame true) => lower_that c sc
   | RBound (CRoot k) | RBound (CStd k) | RBound (CParam k) => of_kind interp k
   | RInferred (IInput t i) => OInferredColumn t i
   | RInferred ITable => if interp then OPassthrough else OErr ENotAValue   (* default_db.x: a relation, see NTable *)
   | RErr e => OErr e
   end.
 
-Definition lower_ref (sc : scope) (id : ident) : outcome := lower_ref_in false sc id.
+Definition lower_ref (c : cfg) (sc : scope) (id : ident) : outcome := lower_ref_in c false sc id.
 
 (* ---- properties of a scope used by the theorems ---- *)
 
@@ -337,7 +350,7 @@ Definition apply_fn (f : fsig) (args : list akind) (named : list str) : applied 
    exactly one declaration -- added by d92afac; before it a table reference ignored the enclosing modules, so a sibling
    `let` constant or function named in `from` / `join` silently became a database table of that name.
    NB: dropping the first part turns m.n.x into n.x, not into the parent's m.x -- for paths of length >= 2 the
-   declarations of proper ancestors are NOT found (finding C10-F3); the model mirrors the code. *)
+   declarations of proper ancestors are NOT found (finding C10-F3); [walk] mirrors whichever the code does ([cfg]). *)
 Record mscope := mkMScope {
   ms_scope : scope;                       (* root names, frames, parameters, std *)
   ms_cur : list str;                      (* current_module_path *)
@@ -358,26 +371,38 @@ Definition arg_kind_of (c : cand) : akind :=
   | _ => AScalar
   end.
 
+(* the module paths resolve_ident tries, in order, for current_module_path = cur:
+     pop_front (the code before the C10-F3 repair):  [m; n; o] -> [m; n; o], [n; o], [o]        (non-empty suffixes)
+     parent walk (reference/spec/modules.md):        [m; n; o] -> [m; n; o], [m; n], [m]        (non-empty prefixes) *)
+Fixpoint tails_ne (l : list str) : list (list str) :=
+  match l with [] => [] | _ :: l' => l :: tails_ne l' end.
+Definition inits_ne (l : list str) : list (list str) := map (@rev str) (tails_ne (rev l)).
+Definition walk (c : cfg) (cur : list str) : list (list str) :=
+  if cfg_parent_walk c then inits_ne cur else tails_ne cur.
+
 (* the enclosing-modules step of a table reference: Some c = `found` *)
-Fixpoint rel_enclosing (mods : list (list str * nkind)) (sc : scope) (cur : list str) (id : ident) : option cand :=
-  match cur with
+Fixpoint first_unique (mods : list (list str * nkind)) (sc : scope) (paths : list (list str)) (id : ident) : option cand :=
+  match paths with
   | [] => None
-  | _ :: cur' =>
-      match mlookup mods sc (cur ++ fst id, snd id) with
-      | [c] => Some c
-      | _ => rel_enclosing mods sc cur' id
+  | p :: paths' =>
+      match mlookup mods sc (p ++ fst id, snd id) with
+      | [x] => Some x
+      | _ => first_unique mods sc paths' id
       end
   end.
 
+Definition rel_enclosing (c : cfg) (mods : list (list str * nkind)) (sc : scope) (cur : list str) (id : ident) : option cand :=
+  first_unique mods sc (walk c cur) id.
+
 (* what a name is in a relation position of a declaration inside modules; None = ambiguous *)
-Definition rel_arg_kind_m (ms : mscope) (id : ident) : option akind :=
+Definition rel_arg_kind_m (c : cfg) (ms : mscope) (id : ident) : option akind :=
   let sc := shadowed (ms_scope ms) in
-  match rel_enclosing (ms_mods ms) sc (ms_cur ms) id with
-  | Some c => Some (arg_kind_of c)
+  match rel_enclosing c (ms_mods ms) sc (ms_cur ms) id with
+  | Some x => Some (arg_kind_of x)
   | None =>
       match mlookup (ms_mods ms) sc id with      (* resolve_ident_core(ident, Some(default_db)) *)
       | [] => Some ARel
-      | [c] => Some (arg_kind_of c)
+      | [x] => Some (arg_kind_of x)
       | _ :: _ :: _ => None
       end
   end.
@@ -394,25 +419,28 @@ Definition rel_arg_kind_m_before_d92afac (ms : mscope) (id : ident) : option aki
 Definition resolve_core_m (mods : list (list str * nkind)) (sc : scope) (id : ident) : resolved :=
   resolve_from (mlookup mods sc id) (infer_candidates sc id).
 
-Fixpoint resolve_enclosing (mods : list (list str * nkind)) (sc : scope) (cur : list str) (id : ident) : resolved :=
-  match cur with
-  | [] => resolve_core_m mods sc id
-  | _ :: cur' =>
-      match resolve_core_m mods sc (cur ++ fst id, snd id) with
-      | RErr _ => resolve_enclosing mods sc cur' id
+Fixpoint first_resolved (mods : list (list str * nkind)) (sc : scope) (paths : list (list str)) (id : ident) : resolved :=
+  match paths with
+  | [] => resolve_core_m mods sc id                      (* at last the identifier as written *)
+  | p :: paths' =>
+      match resolve_core_m mods sc (p ++ fst id, snd id) with
+      | RErr _ => first_resolved mods sc paths' id
       | r => r
       end
   end.
 
-Definition resolve_m (ms : mscope) (id : ident) : resolved :=
-  resolve_enclosing (ms_mods ms) (ms_scope ms) (ms_cur ms) id.
+Definition resolve_enclosing (c : cfg) (mods : list (list str * nkind)) (sc : scope) (cur : list str) (id : ident) : resolved :=
+  first_resolved mods sc (walk c cur) id.
 
-Definition lower_ref_m (ms : mscope) (id : ident) : outcome :=
-  match resolve_m ms id with
+Definition resolve_m (c : cfg) (ms : mscope) (id : ident) : resolved :=
+  resolve_enclosing c (ms_mods ms) (ms_scope ms) (ms_cur ms) id.
+
+Definition lower_ref_m (c : cfg) (ms : mscope) (id : ident) : outcome :=
+  match resolve_m c ms id with
   | RBound (CDirect t p) => OColumn t None p
   | RBound (CInput t i p) => OColumn t (Some i) p
   | RBound (CSelf _ _) | RBound (CFrame false) => OTuple
-  | RBound (CFrame true) => match s_that (ms_scope ms) with Some _ => OTuple | None => OPassthrough end
+  | RBound (CFrame true) => lower_that c (ms_scope ms)
   | RBound (CRoot k) | RBound (CStd k) | RBound (CParam k) => of_kind false k
   | RInferred (IInput t i) => OInferredColumn t i
   | RInferred ITable => OErr ENotAValue
